@@ -86,12 +86,12 @@ def canon_cond(e: ast.AST, pol: bool) -> list[tuple[ast.AST, bool]]:
     return [(e, pol)]
 
 
-def path_conditions(fn: ast.AST, stmt: ast.AST, stop_at: ast.AST | None = None, raw: bool = False):
+def path_conditions(fn: ast.AST, stmt: ast.AST, stop_at: ast.AST | None = None, raw: bool = False, skip_raise_guards: bool = False):
     """-> list of (kind, expr_or_node, polarity).  kind in {'if','while','exc','loop'}.
     ``stop_at``: only conditions inside this enclosing statement (e.g. a loop) are returned.
     Unless ``raw``, 'if'/'while' conditions are canonicalised (see canon_cond): several syntactic forms of one test give
     the same (expression, polarity) pairs."""
-    cs = _path_conditions_raw(fn, stmt, stop_at)
+    cs = _path_conditions_raw(fn, stmt, stop_at, skip_raise_guards)
     if raw:
         return cs
     out = []
@@ -103,7 +103,11 @@ def path_conditions(fn: ast.AST, stmt: ast.AST, stop_at: ast.AST | None = None, 
     return out
 
 
-def _path_conditions_raw(fn: ast.AST, stmt: ast.AST, stop_at: ast.AST | None = None):
+def _path_conditions_raw(fn: ast.AST, stmt: ast.AST, stop_at: ast.AST | None = None, skip_raise_guards: bool = False):
+    """skip_raise_guards: conditions contributed by an earlier sibling `if c: raise …` (argument validation: having passed it
+    says nothing about which alternative is selected afterwards) are left out."""
+    global _SKIP_RAISE
+    _SKIP_RAISE = skip_raise_guards
     pm = parent_map(fn)
     conds = []
     cur = stmt
@@ -139,6 +143,20 @@ def _path_conditions_raw(fn: ast.AST, stmt: ast.AST, stop_at: ast.AST | None = N
     return conds
 
 
+_SKIP_RAISE = False
+
+
+def _ends_in_raise(body) -> bool:
+    if not body:
+        return False
+    last = body[-1]
+    if isinstance(last, ast.Raise):
+        return True
+    if isinstance(last, ast.If):
+        return _ends_in_raise(last.body) and bool(last.orelse) and _ends_in_raise(last.orelse)
+    return False
+
+
 def _siblings(blk, cur, conds):
     for s in blk:
         if s is cur:
@@ -146,6 +164,8 @@ def _siblings(blk, cur, conds):
         if isinstance(s, ast.If):
             b_exit = always_exits(s.body)
             o_exit = bool(s.orelse) and always_exits(s.orelse)
+            if _SKIP_RAISE and ((b_exit and not o_exit and _ends_in_raise(s.body)) or (o_exit and not b_exit and _ends_in_raise(s.orelse))):
+                continue
             if b_exit and not o_exit:
                 conds.append(("if", s.test, False))
             elif o_exit and not b_exit:
@@ -309,11 +329,11 @@ def specialise(fn: ast.FunctionDef, flow, atom) -> ast.FunctionDef:
         for st in stmts:
             if isinstance(st, ast.If):
                 v = decide_at(st)
-                if v is True:
-                    out += block2(st.body)
-                    continue
-                if v is False:
-                    out += block2(st.orelse)
+                if v is True or v is False:
+                    taken = st.body if v else st.orelse
+                    out += block2(taken)
+                    if taken and always_exits(taken):
+                        return out           # what follows a taken guard clause is dead in this case
                     continue
             for f in ("body", "orelse", "finalbody"):
                 b = getattr(st, f, None)
@@ -323,6 +343,8 @@ def specialise(fn: ast.FunctionDef, flow, atom) -> ast.FunctionDef:
                 for h in st.handlers:
                     h.body = block2(h.body) or [ast.Pass()]
             out.append(st)
+            if isinstance(st, (ast.Return, ast.Raise, ast.Continue, ast.Break)):
+                return out
         return out
     root.body = block2(root.body) or [ast.Pass()]
     root = T2().visit(root)
